@@ -193,6 +193,9 @@ def run(ctx):
                 for name, frag in conds.items():
                     if frag in k and isinstance(v, bool):
                         d[name] = v
+                # the same questions asked the other way round
+                if isinstance(v, bool) and "is_none(arg1.attrs)" in k:
+                    d["at"] = not v
             blocked = d.get("e1") is True or d.get("e2") is True or d.get("at") is True or d.get("cm") is True or d.get("sv") is False
             ret = vkey(path.ret)
             all_decided = all(x in d for x in conds)
